@@ -18,9 +18,12 @@ PROBE_EVERY = {"quick": 40, "thorough": 16}
 
 def emit_and_replay(ctx, module, cfg, env, label, probe_every, tag="POS", timeout=1500):
     """TLC behaviour generation followed by parallel replay into the implementation"""
+    import time
+    t0 = time.time()
     e = dict(env)
     e["VERIF_KEYS"] = ctx.keys()
     res = ctx.tlc(module, cfg, env=e, workers=NCPU, timeout=timeout, name=label)
+    t1 = time.time()
     hard = ctx.tlc_hard_errors(res)
     if hard or res["violated"]:
         raise ToolError("TLC failed while generating behaviours (%s): %s" % (label, (hard + res["violated"])[:3]))
@@ -65,7 +68,7 @@ def emit_and_replay(ctx, module, cfg, env, label, probe_every, tag="POS", timeou
     ctx.cov["traces_validated_against_impl"] += tot["lines"]
     ctx.cov["steps"].append({"step": "replay " + label, "behaviours_replayed": tot["lines"],
                              "distinct_positions": tot["distinct"], "nontrivial_positions": tot["nontrivial"],
-                             "counts": tot["counts"]})
+                             "counts": tot["counts"], "generate_wall_s": round(t1 - t0, 1), "replay_wall_s": round(time.time() - t1, 1)})
     return tot
 
 
